@@ -358,5 +358,30 @@ def r9_per_item_suppression(chk: Check) -> None:
             chk.ok("C17.R9", fn, construct, "suppression (if any) is per item", fn.loc(l))
 
 
+def r10_example_sources_keep_identity(chk: Check) -> None:
+    chk.rule("C17.R10", "SOURCE-COMPLETE(parameters whose examples are sent): examples are extracted from operation.iter_parameters(), i.e. from what the operation/path-level merge lets through; the merge identifies a parameter by its name AS WRITTEN and its location - a transformed name (case-folded, stripped) makes a path-level parameter with examples vanish behind a differently spelled operation-level one", floor=2)
+    from .c08 import OAS, _identity_coarsened
+
+    P = chk.project
+    n = 0
+    for ref in (f"{OAS}:BaseOpenAPISchema.get_all_operations", f"{OAS}:BaseOpenAPISchema._collect_operation_parameters"):
+        fn = P.func(ref)
+        for c in body_calls(fn):
+            if last_attr(c) != "collect_parameters" or not c.args or not isinstance(c.args[0], ast.Call):
+                continue
+            r = P.resolve_call(fn, c.args[0])
+            if not (r and r[0] == "func"):
+                continue
+            n += 1
+            coarse = _identity_coarsened(r[1])  # type: ignore[arg-type]
+            construct = f"{r[1].name}: parameter identity is (name as written, in)"  # type: ignore[union-attr]
+            if coarse is None:
+                chk.ok("C17.R10", fn, construct, "no string transformation is applied to the value read from 'name'", fn.loc(c))
+            else:
+                chk.violation("C17.R10", fn, construct, f"`{unparse(coarse[0], 60)}` in {coarse[1].name}: the path-level parameter `Filter` (with examples) is treated as overridden by the operation's `filter`; its examples are never extracted or sent", coarse[1].loc(coarse[0]))
+    if n < 2:
+        chk.undecided("C17.R10", "<discovery>", f"merge sites={n}", "fewer merge-helper call sites than confirmed by hand (2)")
+
+
 def rules(tier: str) -> list:  # type: ignore[type-arg]
-    return [r1_marks, r2_invalid_headers, r3_sibling_sources, r4_explicit_containers, r5_round_robin, r6_presence_by_membership, r7_overrides_merge_per_parameter, r8_memo, r9_per_item_suppression]
+    return [r1_marks, r2_invalid_headers, r3_sibling_sources, r4_explicit_containers, r5_round_robin, r6_presence_by_membership, r7_overrides_merge_per_parameter, r8_memo, r9_per_item_suppression, r10_example_sources_keep_identity]
